@@ -120,6 +120,8 @@ _DER = {}
 ARRANGEMENTS = [            # (registered on the base, registered on a copy() of it); h0 and h1 share a signature, h1 is the current definition
     ([0, 1, 2], None), ([2, 0, 1], None), ([0, 2, 1], None),
     ([0], [1, 2]), ([2], [0, 1]), ([0, 2], [1]), ([0, 1], [2]), ([2, 0], [1]), ([], [0, 1, 2]), ([0], [2, 1]),
+    # ... followed by a method on an unrelated class that is registered and unregistered again
+    ([0, 1, 2], None, "churn"), ([2, 0, 1], None, "churn"), ([0], [1, 2], "churn"), ([], [0, 2, 1], "churn"),
 ]
 
 
@@ -128,6 +130,9 @@ def make_run_derived(W, shape, known_active=None):
     different orders and at different moments (on a function, or partly on a function and partly on a copy() of it): the call must have one outcome"""
     from ovld import Ovld
 
+    from symx import kit
+
+    kit.RAW["Z"] = Z
     n = shape["n"]
     ta, tb = shape["derived"]
     key = repr((ta, tb))
@@ -135,11 +140,12 @@ def make_run_derived(W, shape, known_active=None):
     if ms is None:
         def term(t):
             return ("obj",) if t == n else ("K", t)
-        ms = _DER[key] = MethodSet([dict(pos=[("x", term(ta), False)]), dict(pos=[("x", term(ta), False)]), dict(pos=[("x", term(tb), False)])])
+        ms = _DER[key] = MethodSet([dict(pos=[("x", term(ta), False)]), dict(pos=[("x", term(ta), False)]), dict(pos=[("x", term(tb), False)]),
+                                    dict(pos=[("x", ("raw", "Z"), False)])])
 
     def scenario(arr):
         hs, LOG, ns = ms.instantiate(W)
-        base_regs, copy_regs = arr
+        base_regs, copy_regs = arr[0], arr[1]
         ov = Ovld()
         for m in base_regs:
             ov.register(hs[m], priority=0)
@@ -147,6 +153,9 @@ def make_run_derived(W, shape, known_active=None):
             ov = ov.copy()
             for m in copy_regs:
                 ov.register(hs[m], priority=0)
+        if len(arr) > 2:
+            ov.register(hs[3], priority=0)
+            ov.unregister(hs[3])
         a = W.inst[shape["arg"]]
         return full_outcome(lambda: ov(a), LOG)
 
@@ -155,7 +164,7 @@ def make_run_derived(W, shape, known_active=None):
         k = 1 + ctx.choose("arrangement", len(ARRANGEMENTS) - 1)
         var = scenario(ARRANGEMENTS[k])
         same = base == var
-        info = dict(family="derived", signature_types=[ta, ta, tb], canonical=base, variant=var, arrangement=[ARRANGEMENTS[k][0], ARRANGEMENTS[k][1]])
+        info = dict(family="derived", signature_types=[ta, ta, tb], canonical=base, variant=var, arrangement=list(ARRANGEMENTS[k]))
         return Verdict(same, (), info, [base[1][0]], nontrivial=len(base[0]) >= 1)
 
     return run
